@@ -163,7 +163,13 @@ def name_failure(unit_name, dg, org, owner):
             clause = o[1]
             name = f"{unit_name}/{o[1]}"
         else:
-            name = f"{unit_name}/{fn_of(sp)}.postcondition"
+            # a trait-level `ensures` (spec file) failing for one impl: the function is the one whose body end / exit the
+            # diagnostic points at
+            body = dg.labelled(r"at the end of the function body|at this exit")
+            owner_fn = fn_of(body) if body else fn_of(sp)
+            bo = o_of(body) if body else None
+            impl_of = f"{bo[1]}:" if (bo and bo[0] == "repo") else ""
+            name = f"{unit_name}/{impl_of}{owner_fn}.postcondition" + (f"[trait contract {origin_str(o)}]" if o and o[0] == "spec" else "")
         where = origin_str(o)
     elif kind == "precondition":
         sp = dg.labelled(r"failed precondition")
